@@ -241,7 +241,7 @@ def mode_predicate(B, rep, nmax):
         for n in range(1, nmax + 1):
             elems, ass, lastk = [], [], None
             for i in range(n):
-                e, k, asm = c19.fmt_elem_union("m%s%d_%d" % (v[:2], n, i))
+                e, k, asm = c19.fmt_elem_union("m%s%d_%d" % (v[:2], n, i), B.engine("dev").P)
                 elems.append(e)
                 ass += asm
                 lastk = k
